@@ -42,6 +42,8 @@ def gen_table(rng, nrows=None):
     lines = ["\t".join(cols)]
     t = 0.0
     code_na = rng.random() < 0.5
+    # whole numbers written with a decimal point (read as a float column even when no cell is missing)
+    code_dot = rng.random() < 0.25
     dur_na = rng.random() < 0.3
     # sometimes three rows in a row that agree in every categorical column, the middle one ending last
     block_at = rng.randrange(0, n - 2) if n >= 3 and rng.random() < 0.5 else None
@@ -53,6 +55,8 @@ def gen_table(rng, nrows=None):
         resp = rng.choice(["left", "right", "n/a", "left"])
         code = rng.choice(["1", "2", "3", "3"]) if not (code_na and rng.random() < 0.3) else "n/a"
         val = rng.choice(["0.5", "1.25", "3.0", "7.75"])
+        if code_dot and code != "n/a":
+            code += ".0"
         if block_at is not None and block_at <= i < block_at + 3:
             if block is None:
                 block = (tt if tt != "n/a" else "go", resp, code)
